@@ -174,9 +174,11 @@ pub fn random_cfg(rng: &mut impl Rng, profile: &str) -> Cfg {
         st_preset: pick(rng, &["none", "none", "mi", "sha"]).to_string(),
         fp: rng.random_range(0..100) < 40,
         max_tx: *wpick(rng, &[(1, 0usize), (3, 1), (3, 2), (3, 3), (2, 4), (3, 10)]),
+        order: rng.random_range(0..6),
         user: "alice".to_string(),
         // sometimes a password that OpaqueString changes (NO-BREAK SPACE -> SPACE)
-        password: pick(rng, &["s3cret-pass", "s3cret-pass", "s3cret\u{00A0}pass"]).to_string(),
+        // ... or that is not in normalization form C (e + COMBINING ACUTE ACCENT -> U+00E9)
+        password: pick(rng, &["s3cret-pass", "s3cret-pass", "s3cret\u{00A0}pass", "s3cre\u{301}t-pass"]).to_string(),
     }
 }
 
@@ -281,7 +283,12 @@ pub fn random_msg(rng: &mut impl Rng, d: &Driver, hostile: bool) -> MsgSpec {
         fp: fp.to_string(),
         lt: crate::server::random_lt_spec(rng, code),
         raw,
-        hostile: Value::Null,
+        // now and then a well-formed message that carries an attribute of an unregistered type
+        hostile: match rng.random_range(0..100) {
+            0..=5 => json!({"kind":"unknown_attr","idx":0,"off":0,"s":rng.random_range(0..14)}),
+            6..=9 if d.cfg.fp => json!({"kind": if rng.random_bool(0.5) { "fake_fp" } else { "reuse_fp" },"idx":0,"off":0,"s":0}),
+            _ => Value::Null,
+        },
     }
 }
 
@@ -354,7 +361,7 @@ pub fn guided_lt_msg(rng: &mut impl Rng, d: &Driver) -> MsgSpec {
 
 pub fn random_hostile(rng: &mut impl Rng) -> Value {
     let kind = *wpick(rng, &[(40, "inject"), (10, "trunc_val"), (10, "rand_val"), (8, "dup"), (12, "bitflip"),
-                           (10, "trunc"), (10, "extend")]);
+                           (10, "trunc"), (10, "extend"), (6, "fake_fp"), (6, "reuse_fp"), (4, "unknown_attr")]);
     json!({"kind":kind,"idx":rng.random_range(0..8),"off":rng.random_range(0..64),"s":rng.random_range(0..16)})
 }
 
